@@ -5,6 +5,7 @@ pub mod conn;
 pub mod teardown;
 pub mod peer;
 pub mod keepalive;
+pub mod bridge;
 
 use vf_common::{Ctx, Report};
 
@@ -19,6 +20,7 @@ pub fn dispatch(ctx: &Ctx, rep: &mut Report) -> bool {
         "C08" => teardown::c08(ctx, rep),
         "C10" => peer::c10(ctx, rep),
         "C11" => conn::c11(ctx, rep),
+        "C13" => bridge::c13(ctx, rep),
         "C15" => conn::c15(ctx, rep),
         "C16" => keepalive::c16(ctx, rep),
         _ => return false,
